@@ -203,9 +203,23 @@ func c03Programs() []string {
 		for n := fn.MinArity; n <= fn.MaxArity && n <= 3; n++ {
 			ps = append(ps, callSrc(sig.recv, name, fillArgs(sig, n)))
 			ps = append(ps, callSrc("%c", name, fillArgs(sig, n)))
+			// one-item views of a caller-owned collection of FHIR primitive elements: a function that
+			// normalises its input in place would overwrite the caller's slot
+			for k := 0; k < c03FLen; k++ {
+				ps = append(ps, callSrc(fmt.Sprintf("%%f.skip(%d).take(1)", k), name, fillArgs(sig, n)))
+			}
+			ps = append(ps, callSrc("%f.tail().tail().tail().tail().tail()", name, fillArgs(sig, n)))
 		}
 	}
 	return ps
+}
+
+// %f: FHIR primitive elements of every System kind, owned by the caller
+const c03FLen = 6
+
+func c03FItems() []any {
+	return []any{fhir.Integer(-5), &dtpb.Decimal{Value: "2.5"}, fhir.String("Ann"), fhir.Boolean(true), lib.ProtoDate("2020-02-29"),
+		&dtpb.Quantity{Value: &dtpb.Decimal{Value: "-16"}, Unit: fhir.String("mg"), Code: fhir.Code("mg"), System: fhir.URI("http://unitsofmeasure.org")}}
 }
 
 type c03Shape struct{ name string }
@@ -216,8 +230,8 @@ func init() {
 	progs := c03Programs()
 	suffixes := []string{"", ".first()", ".last()", ".where($this.exists())", ".select($this)", ".toString()", ".distinct()", ".count()", ".tail()", ".take(1)", ".skip(1)", ".exists()", ".empty()", ".toDate()", ".toDateTime()"}
 	core.Register(&core.Check{
-		ID: "C03",
-		Rule: "programs: one per node kind plus every function of both tables at every accepted arity with specification-typed arguments, on the input and on an environment collection (" + fmt.Sprint(len(progs)) + " programs) x 5 hand-sized inputs (Patient, Patient with contained Observation, Observation, Bundle, Questionnaire) x environment shapes for %c and %d in {absent, System value, element aliasing a node of the input, empty collection with 4 spare slots, 3 items with 4 spare slots, 3 items exact} (full product) with %e = empty collection with spare capacity and %el = aliasing element; plus every name path of the schema-covering resource family x 15 continuations and 4 comparison forms (conversion of every primitive kind at every precision). Before/after: deterministic serialisation and presence fingerprint of every input resource and environment element, full backing array s[:cap] (spare slots pre-filled with a sentinel) and header of every collection passed in, AST dump of the compiled expression; every FHIR element in a result is an input's own node (pointer), an equal copy of a node inside an Any-packed contained resource, or the synthesised Reference.reference string; checked after successful and failing evaluations; non-trivial = distinct (program, input, environment shape, outcome)",
+		ID:          "C03",
+		Rule:        "programs: one per node kind plus every function of both tables at every accepted arity with specification-typed arguments, on the input, on an environment collection and on every one-item view (skip(k).take(1), tail^5) of a caller-owned collection %f of six FHIR primitive elements (" + fmt.Sprint(len(progs)) + " programs) x 5 hand-sized inputs (Patient, Patient with contained Observation, Observation, Bundle, Questionnaire) x environment shapes for %c and %d in {absent, System value, element aliasing a node of the input, empty collection with 4 spare slots, 3 items with 4 spare slots, 3 items exact} (full product) with %e = empty collection with spare capacity and %el = aliasing element; plus every name path of the schema-covering resource family x 15 continuations and 4 comparison forms (conversion of every primitive kind at every precision). Before/after: deterministic serialisation and presence fingerprint of every input resource and environment element, full backing array s[:cap] (spare slots pre-filled with a sentinel) and header of every collection passed in, AST dump of the compiled expression; every FHIR element in a result is an input's own node (pointer), an equal copy of a node inside an Any-packed contained resource, or the synthesised Reference.reference string; checked after successful and failing evaluations; non-trivial = distinct (program, input, environment shape, outcome)",
 		Assumptions: []string{"reflect/unsafe are used to observe slice headers and the private expression tree"},
 		Subs: func(tier string) []core.Sub {
 			names := lib.ResourceTypeNames()
@@ -285,6 +299,20 @@ func init() {
 								se := c03MkSlice("e", nil, 4)
 								slices = append(slices, se)
 								env["e"] = se.coll
+								var fItems []proto.Message
+								var fBefore []string
+								if strings.Contains(src, "%f") {
+									items := c03FItems()
+									sf := c03MkSlice("f", items, 2)
+									slices = append(slices, sf)
+									env["f"] = sf.coll
+									for _, it := range items {
+										m := it.(proto.Message)
+										nodes.add(m.ProtoReflect(), false)
+										fItems = append(fItems, m)
+										fBefore = append(fBefore, c03Finger(m))
+									}
+								}
 								before := make([]string, len(in))
 								for k, res := range in {
 									before[k] = c03Finger(res)
@@ -315,6 +343,11 @@ func init() {
 								}
 								if c03Finger(alias) != aliasBefore {
 									r.Fail(key("environment-element-mutated"), w)
+								}
+								for k, m := range fItems {
+									if c03Finger(m) != fBefore[k] {
+										r.Fail(key("environment-element-mutated"), w)
+									}
 								}
 								for _, s := range slices {
 									if d := s.changed(); d != "" {
